@@ -277,14 +277,94 @@ def _gen_real(rng):
     scn["max_recompute"] = rng.choice([1, 1, 1, 2, None])
     t = scn["sched"]["type"]
     if t != "uncontrolled":
-        scn["sched"]["estimator"] = rng.random() < 0.5
-        scn["sched"]["uninterrupted"] = rng.random() < 0.3
+        if rng.random() < 0.4:
+            scn["sched"]["type"] = rng.choice(["lcfs", "llf", "lrpt"])
+        _real_opts(rng, scn["sched"])
     for s_ in scn["sessions"]:                     # two-stage batteries: the rate falls behind the pilot
         if rng.random() < 0.6:
             b = s_["batt"]
             s_["batt"] = {"two": True, "cap": b["cap"], "init": round(0.6 * b["cap"] + 0.39 * rng.random() * b["cap"], 3),
                           "maxp": b["maxp"], "noise": rng.choice([0, 0, 0.5]), "ts": rng.choice([0.8, 0.5]),
                           "calc": rng.choice(["continuous", "stepwise"])}
+    return scn
+
+
+def _real_opts(rng, sc, stateful_bias=0.5):
+    """options of a real sorted scheduler: estimator (+ its thresholds / increment), minimum-rate option,
+    round robin's sort order and increment"""
+    if sc["type"] == "uncontrolled":
+        return sc
+    sc["estimator"] = rng.random() < stateful_bias
+    sc["uninterrupted"] = rng.random() < 0.3
+    if sc["type"] == "rr":
+        sc["sort"] = rng.choice(SORTS)
+        sc["inc"] = rng.choice([0.1, 0.5, 1])
+    if sc["estimator"] and rng.random() < 0.3:
+        sc["ramp"] = {"up": rng.choice([1, 0.5, 2]), "down": rng.choice([1, 0.5, 2]), "inc": rng.choice([1, 0.5, 3])}
+    return sc
+
+
+def _gen_rampdown(rng):
+    """scenarios in which the SimpleRampdown estimator's per-session bounds BIND and SETTLE before most crash
+    points: long sessions whose car draws clearly less than the pilot for several periods — an ideal battery
+    with a small max_power (constant rate: the bound settles one increment above it; on a FiniteRatesEVSE the
+    pilot settles on the step below the bound), a two-stage battery inside / entering its taper (the rate keeps
+    falling: the bound follows it), a nearly full battery — next to ordinary sessions that take what they are
+    offered, under an aggregate limit that often binds (so the capacity reclaimed from one session moves the
+    pilots, rates and energies of the OTHERS).  Scheduler: every stock sorted algorithm and round robin, mostly
+    with the estimator, minimum-rate option on/off, max_recompute 1 / None / k."""
+    ns = rng.randint(2, 4)
+    period = rng.choice([5, 5, 5, 1, 15])
+    stations = []
+    for i in range(ns):
+        r = rng.random()
+        kind = ({"t": "cont", "min": 0, "max": rng.choice([32, 32, 16, 48])} if r < 0.45 else
+                {"t": "finite", "rates": list(S.AV_RATES)} if r < 0.7 else
+                {"t": "finite", "rates": list(S.CC_RATES)} if r < 0.9 else
+                {"t": "finite", "rates": sorted(rng.sample([6, 8, 10, 12.5, 16, 20, 24, 30, 32], rng.randint(2, 5)))})
+        stations.append({"id": f"S{i}", "kind": kind, "V": rng.choice([208, 208, 240, 277.5, 120]), "phase": 0})
+    sessions = []
+    n = 0
+    for st in stations:
+        mx = max(st["kind"]["rates"]) if st["kind"]["t"] == "finite" else st["kind"]["max"]
+        t = rng.randint(0, 2)
+        for _ in range(rng.choice([1, 1, 2])):
+            dur = rng.randint(3, 7)
+            kw_max = mx * st["V"] / 1000.0                       # what the EVSE can deliver at its top pilot
+            r = rng.random()
+            if r < 0.4:        # ideal battery, small max_power: draws a constant 25-80 % of the top pilot
+                batt = {"two": False, "cap": 100, "init": round(rng.uniform(0, 40), 2),
+                        "maxp": round(kw_max * rng.uniform(0.25, 0.8), 3)}
+            elif r < 0.7:      # two-stage battery in / about to enter the taper
+                cap = rng.choice([10, 20, 40])
+                ts = rng.choice([0.8, 0.5, 0.7])
+                batt = {"two": True, "cap": cap, "init": round(cap * min(0.97, ts + rng.uniform(-0.08, 0.15)), 3),
+                        "maxp": round(kw_max * rng.uniform(0.5, 1.2), 3), "noise": rng.choice([0, 0, 0, 0.3]), "ts": ts,
+                        "calc": rng.choice(["continuous", "stepwise"])}
+            elif r < 0.8:      # nearly full ideal battery: the rate collapses after a period or two
+                cap = rng.choice([10, 40])
+                batt = {"two": False, "cap": cap, "init": round(cap - kw_max * period / 60 * rng.uniform(0.5, 2.5), 3),
+                        "maxp": round(kw_max * rng.uniform(0.6, 1.5), 3)}
+                batt["init"] = max(0.0, batt["init"])
+            else:              # takes whatever it is offered
+                batt = {"two": False, "cap": 100, "init": 5, "maxp": round(kw_max * 1.5, 3)}
+            dep = t + dur
+            sessions.append({"session": f"x{n}", "station": st["id"], "arrival": t, "departure": dep,
+                             "requested": round(rng.choice([0.3, 0.8, 1.5]) * kw_max * period / 60 * dur, 3), "batt": batt,
+                             "est": rng.choice([None, None, dep + 1, max(t + 1, dep - 1)])})
+            n += 1
+            t = dep + rng.choice([0, 0, 1])
+    rng.shuffle(sessions)
+    tops = sum((max(st["kind"]["rates"]) if st["kind"]["t"] == "finite" else st["kind"]["max"]) for st in stations)
+    scn = {"stations": stations, "constraint": {"limit": round(tops * rng.choice([0.45, 0.6, 0.8, 3.0]), 1)},
+           "sessions": sessions, "period": period, "max_recompute": rng.choice([1, 1, 1, 1, None, 2, 3]),
+           "noise": [round(rng.gauss(0, 1.0), 4) for _ in range(rng.randint(1, 5))]}
+    last = max(s_["departure"] for s_ in sessions)
+    scn["recomputes"] = [rng.randint(1, last) for _ in range(rng.choice([0, 0, 1, 2]))]
+    if scn["max_recompute"] is None:                  # event-driven only: keep the estimator called often
+        scn["recomputes"] += [t for t in range(1, last) if rng.random() < 0.6]
+    scn["sched"] = _real_opts(rng, {"type": rng.choice(["fcfs", "lcfs", "edf", "llf", "lrpt", "rr", "rr"])}, 0.85)
+    scn["rampdown_stream"] = True
     return scn
 
 
@@ -325,6 +405,12 @@ def generate(rng, n, tier):
             _rename_stations(_diversify(rng, scn), rng.choice(ID_SCHEMES[:3]))
         if i % 5 in (1, 2) or (i % 5 == 3 and rng.random() < 0.5):
             _tie_heavy(rng, scn)
+        for k in _crash_points(scn):
+            out.append({"scn": scn, "k": k})
+    for i in range(max(2, n // 5)):             # the estimator's bounds bind and settle before the crash
+        scn = _gen_rampdown(rng)
+        if rng.random() < 0.6:
+            _rename_stations(scn, rng.choice(ID_SCHEMES[:3]))
         for k in _crash_points(scn):
             out.append({"scn": scn, "k": k})
     return out
@@ -389,28 +475,38 @@ def _run_stoch(scn, k):
     return obs
 
 
-REAL = ("uncontrolled", "fcfs", "edf", "rr")
+REAL = ("uncontrolled", "fcfs", "lcfs", "edf", "llf", "lrpt", "rr")
+SORTS = ("fcfs", "lcfs", "edf", "llf", "lrpt")
 
 
 def _is_real(scn):
     return scn["sched"]["type"] in REAL
 
 
+def _sort_of(sc):
+    """sort order of a real sorted scheduler spec (`sort` for round robin, default fcfs)"""
+    return sc["type"] if sc["type"] in SORTS else sc.get("sort", "fcfs")
+
+
 def _real_inner(scn):
-    """the REAL algorithm of a scenario; `estimator`: SimpleRampdown (internal per-session bounds that
-    are NOT part of the serialised state), `uninterrupted`: minimum-rate preprocessing"""
+    """the REAL algorithm of a scenario (every sort order of sorted_algorithms.py); `estimator`: SimpleRampdown
+    (internal per-session bounds that are NOT part of the serialised state; thresholds / increment from `ramp`),
+    `uninterrupted`: minimum-rate preprocessing, `inc`: RoundRobin's continuous_inc"""
     from acnportal import algorithms as A
     sc = scn["sched"]
-    est = A.SimpleRampdown() if sc.get("estimator") else None
+    rp = sc.get("ramp") or {"up": 1, "down": 1, "inc": 1}
+    est = A.SimpleRampdown(rp["up"], rp["down"], rp["inc"]) if sc.get("estimator") else None
     kw = dict(estimate_max_rate=est is not None, max_rate_estimator=est,
               uninterrupted_charging=bool(sc.get("uninterrupted")))
     t = sc["type"]
+    fn = {"fcfs": A.first_come_first_served, "lcfs": A.last_come_first_served, "edf": A.earliest_deadline_first,
+          "llf": A.least_laxity_first, "lrpt": A.largest_remaining_processing_time}[_sort_of(sc)]
     if t == "uncontrolled":
         inner = A.UncontrolledCharging()
     elif t == "rr":
-        inner = A.RoundRobin(A.first_come_first_served, **kw)
+        inner = A.RoundRobin(fn, continuous_inc=sc.get("inc", 0.1), **kw)
     else:
-        inner = A.SortedSchedulingAlgo(A.first_come_first_served if t == "fcfs" else A.earliest_deadline_first, **kw)
+        inner = A.SortedSchedulingAlgo(fn, **kw)
     inner.max_recompute = scn.get("max_recompute")
     return inner
 
@@ -425,13 +521,58 @@ def _fresh_algo(scn):
 
 def _build(scn, hooks, store_hist=False):
     """S.build_sim; for a real algorithm the wrapped inner algorithm is replaced by one built here (so that
-    the estimator / uninterrupted options exist)"""
-    sim, ctx = S.build_sim(scn, hooks, store_schedule_history=store_hist)
+    every sort order and the estimator / uninterrupted options exist)"""
     if _is_real(scn):
+        shell = dict(scn, sched={"type": "uncontrolled" if scn["sched"]["type"] == "uncontrolled" else "fcfs"})
+        sim, ctx = S.build_sim(shell, hooks, store_schedule_history=store_hist)
         algo = ctx["scheduler"]
         algo.inner = _real_inner(scn)
         algo.inner.register_interface(algo.interface)
-    return sim, ctx
+        return sim, ctx
+    return S.build_sim(scn, hooks, store_schedule_history=store_hist)
+
+
+def _rd_final(obs, algo):
+    rd = _estimator_of(algo)
+    if rd is not None:
+        obs["rd_bounds"] = sorted([k_, float(v_)] for k_, v_ in rd.upper_bounds.items())
+
+
+def _estimator_of(algo):
+    return getattr(getattr(algo, "inner", None), "max_rate_estimator", None)
+
+
+def _rd_state(algo):
+    """what the SimpleRampdown object of a (wrapped) real algorithm knows right now, and what it would read off
+    the interface in its next call: [session, bound, max pilot of the station, previous pilot, previous rate]
+    for every session it has a bound for and that is connected"""
+    est = _estimator_of(algo)
+    if est is None:
+        return None
+    iface = est.interface
+    pp, pr = iface.last_applied_pilot_signals, iface.last_actual_charging_rate
+    out = []
+    for s_ in iface.active_sessions():
+        if s_.session_id in est.upper_bounds:
+            out.append([s_.session_id, float(est.upper_bounds[s_.session_id]), I.enc(float(iface.max_pilot_signal(s_.station_id))),
+                        None if s_.session_id not in pp else float(pp[s_.session_id]),
+                        None if s_.session_id not in pr else float(pr[s_.session_id])])
+    return sorted(out)
+
+
+def _infra_obs(iface):
+    """`Interface.infrastructure_info()` as the sorted algorithms see it (input of the modelled algorithm)"""
+    import numpy as np
+    info = iface.infrastructure_info()
+    ph = np.deg2rad(info.phases)
+    return {"ids": list(info.station_ids),
+            "M": [[float(x) for x in row] for row in info.constraint_matrix],
+            "lims": [float(x) for x in info.constraint_limits],
+            "cos": [float(x) for x in np.cos(ph)], "sin": [float(x) for x in np.sin(ph)],
+            "volt": [float(x) for x in info.voltages],
+            "maxp": [I.enc(float(x)) for x in info.max_pilot], "minp": [float(x) for x in info.min_pilot],
+            "cont": [bool(x) for x in info.is_continuous],
+            "allow": [[I.enc(float(a_)) for a_ in al] for al in info.allowable_pilots]}
 
 
 class _FailAfter:
@@ -463,6 +604,7 @@ def _run_resume(scn, hooks):
             obs["first"] = first
         obs["noise_draws"] = ns["k"]
         _by_station(sim, obs)
+        _rd_final(obs, ctx["scheduler"])
     return obs
 
 
@@ -480,6 +622,9 @@ def _run_a(scn):
             obs["noise_draws"] = ns["k"]
             obs["sched_hist"] = _sched_hist(sim)
             _by_station(sim, obs)
+            if _is_real(scn):
+                obs["infra"] = _infra_obs(ctx["scheduler"].interface)
+                _rd_final(obs, ctx["scheduler"])
         _A_CACHE[key] = obs
     return _A_CACHE[key]
 
@@ -737,7 +882,7 @@ def _run_json(scn, k, store_hist, net_cls, want_store, reattach="fresh"):
     with S.noise_stream(scn.get("noise", [])) as ns:
         sim, ctx = _build(scn, S.Hooks(fail_at={k}, network_cls=net_cls), store_hist)
         err = S.run_sim(sim)
-        out = {"fired": err == "SchedulerFailed" and sim.iteration == k}
+        out = {"fired": err == "SchedulerFailed" and sim.iteration == k, "reattach": reattach}
         if not out["fired"]:
             obs = S.observe(sim, ctx, err)
             obs["noise_draws"] = ns["k"]
@@ -753,6 +898,7 @@ def _run_json(scn, k, store_hist, net_cls, want_store, reattach="fresh"):
             algo2 = _fresh_algo(scn) if reattach == "fresh" else ctx["scheduler"]
             if reattach != "fresh":
                 del algo2.calls[:]
+                out["rd_at_crash"] = _rd_state(algo2)
             sim2.update_scheduler(algo2)
             js2 = sim2.to_json()
         finally:
@@ -776,6 +922,8 @@ def _run_json(scn, k, store_hist, net_cls, want_store, reattach="fresh"):
         obs["sched_hist"] = _sched_hist(sim2)
         _by_station(sim2, obs)
         obs["occ"] = [list(r) for r in _OCC] if net_cls is LogNetwork else []
+        if reattach != "fresh":
+            _rd_final(obs, algo2)
         out["obs"] = obs
     return out
 
@@ -787,7 +935,9 @@ def run_impl(case):
         return {"a": a, "b": _run_stoch(scn, k), "c": None, "d": None}
     b = _run_resume(scn, S.Hooks(fail_at={k}))
     c = _run_json(scn, k, False, ChargingNetwork, not _is_real(scn))
-    d = _run_json(scn, k, True, LogNetwork, False)
+    # an algorithm with hidden state: the history-on round trip gets the ORIGINAL algorithm object back too
+    # (run c keeps the fresh one: it measures whether the hidden state matters at this crash point)
+    d = _run_json(scn, k, True, LogNetwork, False, reattach="original" if _hidden_state(scn) else "fresh")
     out = {"a": a, "b": b, "c": c, "d": d}
     if _is_real(scn):
         # the failure strikes AFTER the algorithm ran; and the original algorithm object re-attached after the load
@@ -799,10 +949,42 @@ def run_impl(case):
 # ------------------------------------------------------------------ model
 
 
+def _sorted_request(scn, infra):
+    """the scenario with its REAL algorithm as a request of `AcnModel/WireSortedRd.lean` (drv_C09 "sorted"): the
+    modelled sorted algorithm / round robin / uncontrolled baseline as the scheduler of the simulator model, the
+    SimpleRampdown object threaded through `SimSortedRd.runSt`; `infra` = what `infrastructure_info()` returned"""
+    f2b = C.f2b
+    sc = scn["sched"]
+    rp = sc.get("ramp") or {"up": 1, "down": 1, "inc": 1}
+    t = sc["type"]
+    return {"algo": "uncontrolled" if t == "uncontrolled" else "rr" if t == "rr" else "greedy", "sort": _sort_of(sc),
+            "uninterrupted": bool(sc.get("uninterrupted")), "estimate": bool(sc.get("estimator")),
+            "inc": f2b(float(sc.get("inc", 0.1))), "period": f2b(I.num(scn["period"])),
+            "ramp": {k_: f2b(float(v_)) for k_, v_ in rp.items()},
+            "infra": {"ids": infra["ids"], "M": [[f2b(x) for x in r] for r in infra["M"]],
+                      "lims": [f2b(x) for x in infra["lims"]], "cos": [f2b(x) for x in infra["cos"]],
+                      "sin": [f2b(x) for x in infra["sin"]], "volt": [f2b(x) for x in infra["volt"]],
+                      "maxp": [f2b(I.num(x)) for x in infra["maxp"]], "minp": [f2b(x) for x in infra["minp"]],
+                      "cont": infra["cont"], "allow": [[f2b(I.num(x)) for x in al] for al in infra["allow"]]},
+            "calls": [],
+            "simrun": {"stations": [{"id": st["id"], "kind": I.kind_wire(st["kind"]), "V": f2b(I.num(st["V"]))}
+                                    for st in scn["stations"]],
+                       "evs": [I.ev_wire(s_) for s_ in scn["sessions"]],
+                       "recomputes": [[int(r), f"r{i}"] for i, r in enumerate(scn.get("recomputes", []))],
+                       "max_recompute": scn.get("max_recompute"), "period": f2b(I.num(scn["period"])),
+                       "noise": [f2b(float(v)) for v in scn.get("noise", [])]}}
+
+
 def model_request(case, obs=None):
     scn, k = case["scn"], int(case["k"])
-    if scn.get("stochastic") or _is_real(scn):
-        return None          # random space assignment is C19's model, the sorting algorithms C07/C08's: oracle only
+    if scn.get("stochastic"):
+        return None          # random space assignment is C19's model: oracle only
+    if _is_real(scn):
+        # the composition model of C07 (modelled algorithm + estimator inside the simulator model), uninterrupted:
+        # compared with the implementation's uninterrupted AND resumed runs
+        if not obs or not isinstance(obs.get("a"), dict) or obs["a"].get("infra") is None or not S.is_valid_layout(scn):
+            return None
+        return {"sim": None, "reg": None, "sorted": _sorted_request(scn, obs["a"]["infra"])}
     req = {"sim": S.model_request(scn, fail_at={k}, resume=True), "reg": None}
     if obs and isinstance(obs.get("c"), dict) and obs["c"].get("store"):
         st = obs["c"]["store"]
@@ -817,8 +999,45 @@ def model_request(case, obs=None):
     return req
 
 
+def _compare_sorted(case, obs, sr):
+    """the model's UNINTERRUPTED run (modelled algorithm, estimator threaded) against the implementation's
+    uninterrupted run and against every resumed run in which the algorithm's state survives (run() again; JSON
+    round trip with the ORIGINAL algorithm object; for an algorithm without hidden state also the fresh one)"""
+    scn, k = case["scn"], int(case["k"])
+    m = S.decode_model(sr)
+    a = obs["a"]
+    diffs = []
+    S.compare_state(scn, a, m, diffs, tag="uninterrupted: ")
+    stateful = _hidden_state(scn)
+    runs = [("run() again: ", obs["b"], "dup")]
+    for nm, key in (("json, fresh algorithm: ", "c"), ("json+history: ", "d"), ("json, original algorithm: ", "c2")):
+        r = obs.get(key)
+        if r is None or not r.get("fired"):
+            continue
+        if stateful and r.get("reattach") != "original":
+            continue
+        runs.append((nm, r["obs"], "tail"))
+    for nm, o, mode in runs:
+        if mode == "dup" and "first" not in o:
+            continue
+        mm = dict(m)
+        if mode == "dup":
+            mm["invoked"] = [x for t in m["invoked"] for x in ([t, t] if t == k else [t])]
+        else:
+            mm["invoked"] = [t for t in m["invoked"] if t >= k]
+        oo = {x: y for x, y in o.items() if x != "first"}
+        if not oo.get("occ"):
+            mm["occ"] = oo.get("occ", [])          # plain ChargingNetwork: no occupancy log
+        dd = []
+        S.compare_state(scn, oo, mm, dd, tag=nm)
+        diffs.extend(dd[:3])
+    return diffs[:10]
+
+
 def compare(case, obs, model):
     diffs = []
+    if model.get("sorted") is not None:
+        return _compare_sorted(case, obs, model["sorted"])
     if model.get("sim") is not None:
         diffs.extend(S.compare(case["scn"], obs["b"], model["sim"]))
     reg = model.get("reg")
@@ -1112,7 +1331,7 @@ def oracle(case, obs):
             fails.append({"kind": "crash_point", "detail": f"{tag}: failure at {k} fired={r['fired']}"})
             continue
         dd = _same(a, r["obs"], f"after {tag} round trip", k, "tail" if r["fired"] else None)
-        if stateful and r["fired"]:
+        if stateful and r["fired"] and r.get("reattach") != "original":
             dd = []      # a FRESH estimator has lost its bounds: outside the property (see ASSUMPTIONS); measured in features
         if r["fired"] and r.get("missing_evs"):
             dd.append(f"EVs not reachable from the loaded simulator: {r['missing_evs']}")
@@ -1142,7 +1361,8 @@ def oracle(case, obs):
                               "detail": f"crash at {k}, JSON round trip, the ORIGINAL algorithm object re-attached: " + "; ".join(d3[:4])})
             if c2["fired"] and (c2["identity"] or c2["rejson"]):
                 fails.append({"kind": "sharing_lost", "detail": "; ".join((c2["identity"] + c2["rejson"])[:3])})
-    if d is not None and d["fired"] and not stateful and d["obs"].get("sched_hist") != a.get("sched_hist"):
+    if d is not None and d["fired"] and (not stateful or d.get("reattach") == "original") \
+            and d["obs"].get("sched_hist") != a.get("sched_hist"):
         fails.append({"kind": "json_history_resume_differs",
                       "detail": f"crash at {k}: schedule_history {str(d['obs'].get('sched_hist'))[:300]} vs {str(a.get('sched_hist'))[:300]}"})
     return fails
